@@ -64,6 +64,7 @@ TCase == /\ IsEvent("case")
               [] e.alg = "aes" -> AesOK(e)
               [] e.alg = "r234" -> R234OK(e, PdfDoc(e.user), PdfDoc(e.owner))
               [] e.alg = "r56" -> R56OK(e)
+              [] e.alg = "h2b" -> Ok(e.h2b, Hash2B(e.pw, e.salt, e.u))
 
 (* Named deviation (open finding): for revisions 2-4 the library feeds the UTF-8 bytes of a non-ASCII password
    into the algorithms instead of its PDFDocEncoding bytes.  Accepted only when that - and nothing else -
